@@ -230,8 +230,9 @@ fn short_send_product(rep: &mut Report, quick: bool) {
 
 pub fn run(tier: Tier) -> Report {
     let mut rep = Report::new();
+    crate::realx::run_for(&mut rep, "C01", tier.is_quick());
     if let Err(e) = glue_fingerprint() {
-        rep.machinery_errors.push(e);
+        rep.machinery_errors.push(format!("{e} (the mirrored explorations were skipped; the real-loop explorations above were run)"));
         return rep;
     }
     let lim = Limits {
@@ -265,6 +266,9 @@ pub fn run(tier: Tier) -> Report {
 }
 
 pub fn replay(v: &Value) -> Result<(), String> {
+    if let Some(r) = crate::realx::replay_for("C01", v) {
+        return r;
+    }
     if v["exploration"] == "short-send" {
         let mut rep = Report::new();
         short_send_product(&mut rep, false);
